@@ -48,6 +48,11 @@ LoadDict(e) ==
           LET x == CHOOSE y \in SeqToSet(e.entries) : y.s = s IN
           [cp |-> x.cp, lc |-> x.lc, alc |-> x.alc]]
 
+(* aggregations only look at identity, placement and the fast-field values *)
+(* of a document: drop the analysed text (cheaper set operations in TLC)   *)
+Slim(M) == {[id |-> d.id, seg |-> d.seg, ord |-> d.ord, live |-> d.live, kw |-> d.kw, i64 |-> d.i64, f64 |-> d.f64,
+             nested |-> d.nested] : d \in M}
+
 -----------------------------------------------------------------------------
 (* as-built views of a request                                             *)
 
@@ -123,11 +128,15 @@ Report(e, devs, failwhy, label) ==
 
 -----------------------------------------------------------------------------
 (* top_hits ids depend on the (segment, doc) tie-break and are excluded    *)
-(* from the layout-to-layout comparison                                    *)
+(* from the layout-to-layout comparison; so are the derived floating point *)
+(* metrics (avg, variance, std_deviation), whose last digit depends on the *)
+(* merge order and which the absolute comparison judges with a tolerance   *)
 RECURSIVE Strip(_)
 StripSubs(subs) == [i \in DOMAIN subs |-> [name |-> subs[i].name, r |-> Strip(subs[i].r)]]
 Strip(r) ==
   IF r.t = "tophits" THEN [t |-> "tophits", total |-> r.total]
+  ELSE IF r.t \in {"stats", "estats"}
+    THEN [t |-> r.t, count |-> r.count, min4 |-> r.min4, max4 |-> r.max4, sum4 |-> r.sum4, exact |-> r.exact]
   ELSE IF r.t = "buckets" THEN [r EXCEPT !.bs = [i \in DOMAIN r.bs |-> [r.bs[i] EXCEPT !.subs = StripSubs(r.bs[i].subs)]]]
   ELSE IF r.t = "filter" THEN [r EXCEPT !.subs = StripSubs(r.subs)]
   ELSE r
@@ -136,8 +145,8 @@ Strip(r) ==
 CheckLayout(e) ==
   IF ~UnderCaps(D, docs, e.q) THEN first' = first
   ELSE
-    LET Mi == Expected(D, docs, e.q, e.filters)
-        Mb == ExpectedAsBuilt(D, docs, e.q, e.filters)
+    LET Mi == Slim(Expected(D, docs, e.q, e.filters))
+        Mb == Slim(ExpectedAsBuilt(D, docs, e.q, e.filters))
         devs == IF ~e.obs.ok THEN {"FAIL"} ELSE DevsOf(Cands(Mi, Mb, e.aggs), e.nseg, e.obs.aggs)
         mine == [seen |-> TRUE, clean |-> devs = {}, aggs |-> IF e.obs.ok THEN StripSubs(e.obs.aggs) ELSE <<>>]
         prev == first[e.rid]
@@ -152,15 +161,15 @@ CheckLayout(e) ==
 CheckPagingAggs(e) ==
   IF ~UnderCaps(D, docs, e.q) THEN TRUE
   ELSE
-    LET Mi == Expected(D, docs, e.q, e.filters)
-        Mb == ExpectedAsBuilt(D, docs, e.q, e.filters)
+    LET Mi == Slim(Expected(D, docs, e.q, e.filters))
+        Mb == Slim(ExpectedAsBuilt(D, docs, e.q, e.filters))
         vs == e.variants
         bad == {i \in DOMAIN vs : ~vs[i].obs.ok}
         (* the documents strictly after the cursor of variant v in the walk's sort plan, *)
         (* scores taken from the covering request                                          *)
         Sb(d) == e.fullsb[CHOOSE i \in DOMAIN e.fullids : e.fullids[i] = d.id]
         After(M, v) == {d \in M : /\ d.id \in SeqToSet(e.fullids)
-                                  /\ CmpKeys(D, e.sort, LiveDoc(docs, v.afterid), v.aftersb, d, Sb(d)) < 0}
+                                  /\ CmpKeys(D, e.sort, LiveDoc(Slim(docs), v.afterid), v.aftersb, d, Sb(d)) < 0}
         plain == {i \in DOMAIN vs : vs[i].obs.ok /\ ~vs[i].haspos}
         paged == {i \in DOMAIN vs : vs[i].obs.ok /\ vs[i].haspos}
         distinct == {vs[i].obs.aggs : i \in plain}
@@ -189,8 +198,8 @@ ConcatBs(pages) == IF pages = <<>> THEN <<>> ELSE Head(pages).bs \o ConcatBs(Tai
 CheckWalk(e) ==
   IF ~UnderCaps(D, docs, e.q) THEN TRUE
   ELSE
-    LET Mi == Expected(D, docs, e.q, e.filters)
-        Mb == ExpectedAsBuilt(D, docs, e.q, e.filters)
+    LET Mi == Slim(Expected(D, docs, e.q, e.filters))
+        Mb == Slim(ExpectedAsBuilt(D, docs, e.q, e.filters))
         n == Len(e.pages)
         allOk == e.unpaged.ok /\ \A i \in 1..n : e.pages[i].ok
         U == e.unpaged.aggs[1].r
